@@ -161,7 +161,14 @@ def coq_sort_case(c, out, order):
 
 
 # ------------------------------------------------------------------ part B: masks (contracts of the scipy engines)
-def gen_mask(rng):
+def gen_mask(rng, overlap=False):
+    if overlap:
+        m, k = overlap_mask(rng)
+        if rng.random() < 0.35:        # extruded to 3-D (along a middle or last axis)
+            reps = rng.randrange(2, 4)
+            pad = np.zeros_like(m)
+            m = np.stack([pad] + [m] * reps + [pad], axis=rng.choice([1, 2]))
+        return {"kind": "mask", "shape": list(m.shape), "mask": [bool(v) for v in m.ravel()], "gen": "overlap/" + k}
     nd = rng.choice([1, 2, 2, 2, 3, 3, 4])
     top = {1: 30, 2: 14, 3: 7, 4: 4}[nd]
     shape = [rng.randrange(1, top + 1) for _ in range(nd)]
@@ -272,6 +279,191 @@ def oracle_mask(c, r):
     if comps != got_c:
         return "label classes are not the connected components"
     return None
+
+
+# ------------------------------------------------------------------ regions with overlapping bounding boxes
+def _bboxes_overlap(comps):
+    """do the bounding boxes of at least two of the given cell sets intersect?"""
+    boxes = []
+    for comp in comps:
+        arr = np.array(comp)
+        boxes.append((arr.min(axis=0), arr.max(axis=0)))
+    for a in range(len(boxes)):
+        for b in range(a + 1, len(boxes)):
+            if np.all(boxes[a][0] <= boxes[b][1]) and np.all(boxes[b][0] <= boxes[a][1]):
+                return True
+    return False
+
+
+def overlap_mask(rng, kind=None):
+    """2-D boolean mask with at least two regions (separated by empty cells) whose bounding boxes overlap:
+    parallel diagonal ridges, a region nested in the hollow of another, interleaved L-shapes, a mode in the mouth of an arc"""
+    for _ in range(50):
+        k = kind or rng.choice(["ridges", "ridges", "nested", "lshapes", "arc"])
+        if k == "ridges":
+            n0, n1 = rng.randrange(12, 22), rng.randrange(14, 26)
+            wdt, gap, nb = rng.randrange(2, 5), rng.randrange(2, 5), rng.choice([2, 2, 3])
+            slope = rng.choice([1.0, 0.5, 2.0, 1.5])
+            off0 = rng.randrange(-3, 3)
+            m = np.zeros((n0, n1), dtype=bool)
+            for i in range(n0):
+                for j in range(n1):
+                    t = j - int(round(slope * i)) - off0
+                    for b in range(nb):
+                        lo = b * (wdt + gap)
+                        if lo <= t < lo + wdt:
+                            m[i, j] = True
+            m[0, :] = m[-1, :] = False
+            m[:, 0] = m[:, -1] = False
+        elif k == "nested":
+            n0, n1 = rng.randrange(16, 24), rng.randrange(16, 24)
+            th = rng.randrange(2, 4)
+            g = rng.randrange(1, 3)
+            m = np.zeros((n0, n1), dtype=bool)
+            m[1:n0 - 1, 1:n1 - 1] = True
+            m[1 + th:n0 - 1 - th, 1 + th:n1 - 1 - th] = False
+            a0, a1 = 1 + th + g, 1 + th + g
+            m[a0:n0 - a0, a1:n1 - a1] = True
+            if rng.random() < 0.5 and n0 - 2 * a0 >= 5 and n1 - 2 * a1 >= 5:      # a third level: hollow inner region
+                m[a0 + 2:n0 - a0 - 2, a1 + 2:n1 - a1 - 2] = False
+        elif k == "lshapes":
+            n = rng.randrange(14, 22)
+            th = rng.randrange(2, 4)
+            m = np.zeros((n, n), dtype=bool)
+            m[1:n - 4, 1:1 + th] = True
+            m[n - 4 - th:n - 4, 1:n - 4] = True
+            o = 1 + th + rng.randrange(1, 3)
+            m[1:1 + th, o:n - 1] = True
+            m[1:n - 4 - th - rng.randrange(1, 3), n - 1 - th:n - 1] = True
+        else:
+            n0, n1 = rng.randrange(15, 22), rng.randrange(15, 22)
+            th = rng.randrange(2, 4)
+            m = np.zeros((n0, n1), dtype=bool)
+            m[1:n0 - 1, 1:n1 - 1] = True
+            m[1 + th:n0 - 1 - th, 1 + th:n1 - 1] = False          # a C opened towards +axis1
+            g = rng.randrange(1, 3)
+            m[1 + th + g:n0 - 1 - th - g, 1 + th + g + rng.randrange(0, 3):n1 - 1 - rng.randrange(0, 4)] = True
+        if rng.random() < 0.5:
+            m = m.T
+        if rng.random() < 0.5:
+            m = m[::-1, :]
+        if rng.random() < 0.5:
+            m = m[:, ::-1]
+        m = np.ascontiguousarray(m)
+        comps = components([tuple(int(v) for v in c) for c in zip(*np.nonzero(m))], 2)
+        if len(comps) >= 2 and _bboxes_overlap(comps):
+            return m, k
+    raise RuntimeError("could not generate a mask with overlapping bounding boxes")
+
+
+def table_case(weights, deltas, extrude=None, shape_kind="table"):
+    """contour case on a TableModel: the enclosed region is exactly {weights > 1/2} (x the extruded range)"""
+    w = np.asarray(weights, dtype=float)
+    t = {"weights": [[float(v) for v in r] for r in w], "deltas": [float(d) for d in deltas], "extrude": None if extrude is None else [float(v) for v in extrude]}
+    if extrude is None:
+        full = w
+        dims = [{"family": "table"}, {"family": "table", "cond": 0}]
+    else:
+        e = np.asarray(extrude, dtype=float)
+        full = w[:, None, :] * e[None, :, None]
+        dims = [{"family": "table"}, {"family": "table"}, {"family": "table", "cond": 0}]
+    P = full / full.sum()
+    H = full > 0.5
+    lim = float(P[H].sum() + 0.5 * P[~H].max()) if (~H).any() else 1.0 - 1e-6
+    limits, dl = M.table_grid(t)
+    return {"kind": "contour", "desc": {"table": t, "dims": dims}, "alpha": float(1 - lim), "limits": limits, "deltas": dl, "shape_kind": shape_kind}
+
+
+def gen_table_case(rng, n_dim=2, kind=None):
+    m, k = overlap_mask(rng, kind)
+    w = np.where(m, 1.0, 1e-4) * (1 + 0.2 * np.array([[rng.random() for _ in range(m.shape[1])] for _ in range(m.shape[0])]))
+    w = np.where(m, w, 1e-4)
+    d = [rng.choice([0.05, 0.1, 0.25, 0.5, 1.0, 2.0]) for _ in range(n_dim)]
+    if rng.random() < 0.5:
+        d = [d[0]] * n_dim
+    extrude = None
+    if n_dim == 3:
+        on = rng.randrange(2, 5)
+        extrude = [1e-4] * rng.randrange(1, 3) + [1.0] * on + [1e-4] * rng.randrange(1, 3)
+    return table_case(w, d, extrude, "overlap/" + k)
+
+
+def gen_ridge_case(rng, n_dim=2):
+    """two or three parallel tilted ridges: Y | X is a mixture of normals with parallel linear means (virocon's own
+    NormalDistribution / ConditionalDistribution objects); 3-D: an independent third variable"""
+    sig = r3(rng, 0.3, 0.5)
+    b = rng.choice([1, -1]) * r3(rng, 0.5, 1.1)
+    gap = sig * rng.uniform(7.5, 9.5)
+    nb = rng.choice([2, 2, 3])
+    lo = 2.5 if b > 0 else 2.5 - b * 9.0
+    comps = [{"w": 1.0, "mu": ["lin", float(lo + k * gap), float(b), 0.0], "sigma": float(sig)} for k in range(nb)]
+    dims = [{"family": "weibull", "params": {"alpha": r3(rng, 4.0, 5.5), "beta": r3(rng, 2.2, 3.0), "gamma": 0.0}},
+            {"family": "mixture", "cond": 0, "components": comps}]
+    ymax = lo + (nb - 1) * gap + abs(b) * 9.0 + 4 * sig
+    nx_, ny_ = (rng.randrange(24, 34), rng.randrange(44, 64)) if n_dim == 2 else (rng.randrange(12, 16), rng.randrange(26, 32))
+    limits = [[0.0, 10.0], [0.0, float(round(ymax, 1))]]
+    deltas = [10.0 / nx_, float(round(ymax, 1)) / ny_]
+    if n_dim == 3:
+        dims.append({"family": "normal", "params": {"mu": 5.0, "sigma": 1.0}})
+        limits.append([0.0, 10.0])
+        deltas.append(10.0 / rng.randrange(5, 8))
+    return {"kind": "contour", "desc": {"dims": dims}, "alpha": float(rng.choice([0.05, 0.1, 0.02])), "limits": limits, "deltas": deltas,
+            "shape_kind": "overlap/mixture-ridges"}
+
+
+def r3(rng, lo, hi):
+    return round(rng.uniform(lo, hi), 3)
+
+
+def label_bboxes_overlap(out):
+    """do two of the labelled boundary components of this run have intersecting bounding boxes?"""
+    if not out.get("labels"):
+        return False
+    lab = out["labels"][0][2]
+    nm = out["labels"][0][3]
+    if nm < 2:
+        return False
+    comps = [list(zip(*np.nonzero(lab == i))) for i in range(1, nm + 1)]
+    return _bboxes_overlap([c for c in comps if c])
+
+
+def shrink_table(c, sig):
+    """drop whole regions, then crop empty margins, while the oracle keeps failing in the same clause"""
+    t = c["desc"]["table"]
+    w = np.asarray(t["weights"], dtype=float)
+
+    def still(w2):
+        c2 = table_case(w2, t["deltas"], t.get("extrude"), c.get("shape_kind", "table"))
+        try:
+            o = oracle_contour(c2)
+        except Exception:
+            return None
+        return c2 if (isinstance(o, tuple) and o[0].get("clause") == sig.get("clause")) else None
+    cur = c
+    changed = True
+    while changed:
+        changed = False
+        m = w > 0.5
+        comps = components([tuple(int(v) for v in x) for x in zip(*np.nonzero(m))], 2)
+        if len(comps) <= 1:
+            break
+        for comp in comps:
+            w2 = w.copy()
+            for cell in comp:
+                w2[cell] = 1e-4
+            c2 = still(w2)
+            if c2 is not None:
+                w, cur, changed = w2, c2, True
+                break
+    m = w > 0.5
+    if m.any():
+        ii, jj = np.nonzero(m)
+        i0, i1 = max(0, ii.min() - 1), min(w.shape[0], ii.max() + 2)
+        j0, j1 = max(0, jj.min() - 1), min(w.shape[1], jj.max() + 2)
+        c2 = still(w[i0:i1, j0:j1])
+        if c2 is not None:
+            cur = c2
+    return cur
 
 
 # ------------------------------------------------------------------ part C: whole contours
@@ -414,6 +606,8 @@ def shrink_points(c, sig):
 
 
 def shrink_contour(c, sig):
+    if c["desc"].get("table") is not None:
+        return shrink_table(c, sig)
     cur = c
     for _ in range(3):
         d = cur["deltas"]
@@ -479,10 +673,10 @@ def run(ctx):
     n_sa = len(items)
     # ---------------- B: masks
     n_b = ctx.n(300, 3000)
-    cases_b = [gen_mask(rng) for _ in range(n_b)]
+    cases_b = [gen_mask(rng, overlap=(i % 6 == 0)) for i in range(n_b)]
     res_b = [run_mask(c) for c in cases_b]
     for c, r in zip(cases_b, res_b):
-        key = "mask/%dd/modes=%s" % (len(c["shape"]), r["n_modes"] if r["n_modes"] < 3 else "3+")
+        key = "mask/%dd/modes=%s%s" % (len(c["shape"]), r["n_modes"] if r["n_modes"] < 3 else "3+", "/overlap" if str(c.get("gen", "")).startswith("overlap") else "")
         dist[key] = dist.get(key, 0) + 1
         ctx.count(("mask", tuple(c["shape"]), tuple(c["mask"])), any(r["hdc"]) and any(r["erosion"]))
     bshard = 100
@@ -495,10 +689,20 @@ def run(ctx):
     n_c = ctx.n(40, 300)
     max_cells = ctx.n(900, 2000)
     cases_c = [l7_case()]
+    # several regions whose bounding boxes overlap (every run): table models 2-D / 3-D, mixture ridges 2-D / 3-D
+    for i in range(ctx.n(8, 60)):
+        cases_c.append(gen_table_case(rng, 2, kind=["ridges", "nested", "lshapes", "arc"][i % 4]))
+    for i in range(ctx.n(3, 20)):
+        cases_c.append(gen_table_case(rng, 3))
+    for i in range(ctx.n(2, 12)):
+        cases_c.append(gen_ridge_case(rng, 2))
+    for i in range(ctx.n(1, 6)):
+        cases_c.append(gen_ridge_case(rng, 3))
     for i in range(n_c):
         cases_c.append(gen_contour_case(rng, max_cells, multimodal=(i % 6 == 5)))
     outs_c = [run_contour(c) for c in cases_c]
     coq_c = []
+    n_overlap = 0
     for i, (c, o) in enumerate(zip(cases_c, outs_c)):
         n = len(c["desc"]["dims"])
         if "contour" in o:
@@ -511,6 +715,9 @@ def run(ctx):
                 pass
         else:
             key = "contour/%dd/err:%s" % (n, o["err"])
+        if label_bboxes_overlap(o):
+            key += "/overlapping-bboxes"
+            n_overlap += 1
         dist[key] = dist.get(key, 0) + 1
         ctx.count(("contour", repr(c["desc"]), c["alpha"], repr(c["limits"]), repr(c["deltas"])), "contour" in o and not o["warned"])
         if "contour" in o and o["erosions"] and o["labels"] and o["f"].size <= 2500:
@@ -624,6 +831,9 @@ def run(ctx):
                 found += 1
     ctx.notes["input_distribution"] = dist
     ctx.notes["unjudgeable"] = unjudge
+    ctx.notes["contours_with_overlapping_region_bounding_boxes"] = n_overlap
+    if n_overlap < 6:
+        ctx.broken.append(("generator", "fewer than 6 contours with overlapping region bounding boxes (%d)" % n_overlap, ""))
     ctx.notes["point_set_sizes"] = {"min": min(len(c["x"]) for c in cases_a), "max": max(len(c["x"]) for c in cases_a)}
     for c, o in list(zip(cases_a, outs_a))[:2]:
         ctx.sample({"case": {k: (v[:6] if isinstance(v, list) else v) for k, v in c.items()}, "returned": len(o.get("xx", [])), "of": len(c["x"])})
